@@ -315,6 +315,21 @@ Fixpoint read_retry (fuel : nat) (fd : Z) : MW (Z * list run) :=
 Definition read_errpipe (fd : Z) : MW (Z * list run) :=
   let* nf := gets (fun w => length (w_faults w)) in read_retry (S (S nf)) fd.
 
+(* waitpid on a child that has just reported its own failure, retried while interrupted
+   (process.posix.c: the do/while loops around waitpid) *)
+Fixpoint waitpid_retry (fuel : nat) (pid : Z) : MW (Z * Z) :=
+  match fuel with
+  | O => fun w => Crash crash_fuel w
+  | S f =>
+      let* '(r, st) := sys_waitpid pid in
+      if r <? 0 then
+        let* e := get_errno in
+        if e =? EINTR then waitpid_retry f pid else ret (r, st)
+      else ret (r, st)
+  end.
+Definition waitpid_child (pid : Z) : MW (Z * Z) :=
+  let* nf := gets (fun w => length (w_faults w)) in waitpid_retry (S (S nf)) pid.
+
 Definition process_fork (except : list Z) (child_k : MW unit) : MW Z :=
   let* r := sys_sigfillset in
   if r <? 0 then let* e := get_errno in ret (- e) else
@@ -337,7 +352,7 @@ Definition process_fork (except : list Z) (child_k : MW unit) : MW Z :=
         let* '(q, rs) := read_errpipe prd in
         let child_errno := if q <? 0 then 0 else decode_int (runs_bytes rs) in
         let* r := (if 0 <? child_errno then
-                     let* '(r, _) := sys_waitpid child in
+                     let* '(r, _) := waitpid_child child in
                      if r <? 0 then let* e := get_errno in ret (- e) else ret (- child_errno)
                    else ret r) in
         pipe_destroy prd ;>
@@ -444,7 +459,7 @@ Definition process_start (process : Z) (argv : option (list str)) (o : process_o
           let* '(q, rs) := read_errpipe prd in
           let child_errno := if q <? 0 then 0 else decode_int (runs_bytes rs) in
           if 0 <? child_errno then
-            let* '(r, _) := sys_waitpid child in
+            let* '(r, _) := waitpid_child child in
             let* r := (if r <? 0 then let* e := get_errno in ret (- e) else ret (- child_errno)) in
             finish r process prd pwr pg env
           else finish 0 child prd pwr pg env
